@@ -161,6 +161,10 @@ def deemphAccs (f : Frame) (accum : Bool) : List Acc :=
           -- :328-347
           [wr ⟨.pcm, c⟩ 0 ((f.N - 1) * f.CC)] ++ (if accum then [rd ⟨.pcm, c⟩ 0 ((f.N - 1) * f.CC)] else []))
 
+/-- `ALLOC(scratch, N, celt_sig)` (:297): made on every path except the stereo shortcut (:289-294). -/
+def deemphScratch (f : Frame) (accum : Bool) : Option Int :=
+  if f.ds = 1 ∧ f.CC = 2 ∧ accum = false then none else some f.N
+
 /-! ## prefilter_and_fold (:507-541) -/
 
 def foldCalls (f : Frame) (pOld pCur : Int) : List Call :=
